@@ -467,6 +467,40 @@ func runC16(c *vlib.HistCase) (bool, []string, error) {
 		return nil
 	}
 	oddCheck := func() error {
+		// other spellings of stored IDs are other IDs: never another log's (or this log's) checkpoint
+		var variants []string
+		for _, id := range e.LogIDs {
+			up := strings.ToUpper(id)
+			mixed := []byte(id)
+			for i := range mixed {
+				if i%2 == 0 && mixed[i] >= 'a' && mixed[i] <= 'f' {
+					mixed[i] -= 32
+				}
+			}
+			variants = append(variants, up, string(mixed), id[:len(id)-1], id+"0", id[1:], "0"+id, "0x"+id, id+"-", strings.Replace(id, id[:2], id[:2]+"-", 1))
+		}
+		for _, id := range variants {
+			if _, stored := lastAccepted[id]; stored {
+				continue
+			}
+			known := false
+			for _, k := range e.LogIDs {
+				if k == id {
+					known = true
+				}
+			}
+			if known {
+				continue
+			}
+			code, body, _ := serve("GET", "/witness/v0/logs/"+id+"/checkpoint")
+			classes = append(classes, "get:variant")
+			if code == 200 {
+				return fmt.Errorf("GET checkpoint for %.70q (a different spelling of a stored ID, i.e. an unknown ID): status 200 body %q, want 404", id, body)
+			}
+			if cb, cerr := cl.GetLatestCheckpoint(ctx, id); cerr == nil {
+				return fmt.Errorf("client.GetLatestCheckpoint(%.70q) (a different spelling of a stored ID) returned %d bytes, want os.ErrNotExist", id, len(cb))
+			}
+		}
 		for _, id := range oddIDs {
 			code, body, _ := serve("GET", "/witness/v0/logs/"+id+"/checkpoint")
 			classes = append(classes, "get:odd")
